@@ -88,6 +88,7 @@ def rtClass (t : Cert) : String :=
   if t.version == 2 && t.name.isEmpty then "v2-empty-name"
   else if t.version == 2 && t.name.length > Gen.cert_MaxNameLength then "v2-name-too-long"
   else if t.version == 2 && t.groups.any (·.isEmpty) then "v2-empty-group"
+  else if t.version == 2 && t.groups.any (·.length > Gen.cert_MaxNameLength) then "v2-long-group"
   else if t.notBefore % 1000000000 != 0 || t.notAfter % 1000000000 != 0 then "subsecond-validity"
   else "roundtrip"
 
